@@ -1,5 +1,21 @@
 """Human-written level texts for MANIFEST.json."""
 META = {
+    "C17": dict(
+        text="Proof of the logic + measured runtime (partial): in the main-goroutine model, once the roots are closed the timer action is always enabled and reaches `done` in two own steps "
+             "whatever the environment does (timer_independent, env_keeps_waiting, reaches_wait); with all workers exited it returns without the timer (prompt_when_all_done). The clause "
+             "'including stalls that have already filled every buffer back to the source' is FALSE on the unchanged code: a main goroutine blocked on a full root buffer can take no step and "
+             "never reaches the bounded wait (blocked_main_never_returns, blocked_main_stays_blocked) — known finding F6, replayed on the real code. Seconds are measured by the harness with "
+             "stalled root / inner / leaf / handler nodes, timeouts 1, 5, 6 s.",
+        note="Partial: wall-clock bounds cannot be exhibited in Lean. Trusted: Lean kernel, model transcription, wall-clock margins, extractor (waitTimeout, Execute, stopWorkers, runNode).",
+        technique="Lean 4 theorems about the main-goroutine model + regenerated skeleton equalities + timing harness on the real executor",
+    ),
+    "C18": dict(
+        text="Proof: for every number k of consecutive failures the supervision model yields exactly k+1 instances, each created, initialised, set up and started exactly once and in that "
+             "order, instance j+1 only after instance j returned (supervise_failures_then_finish, instances, order_spelled_out); the source channel is closed exactly once, as the last call, "
+             "only after a nil return, and never while the source keeps failing (close_only_after_finish, failures_never_close). Source shape pinned by skeleton equalities for superviseSource, "
+             "prepareSource, Execute. Real runs: scripted sources failing after 0..n events, errors that wrap context.Canceled, a replacement whose Setup outlasts the pause.",
+        note="Trusted: Lean kernel, model transcription, harness source, extractor. Each restart costs the hard-coded 10 s pause. A failing Setup (os.Exit) is not exercised by the check.",
+    ),
     "C01": dict(
         text="Proof: for every tree, outcome oracle and stream the denotational flow model offers each enabled child exactly the results of the events its parent passed (passed_mem, "
              "passed_count: multiplicities add up, nothing lost/duplicated/invented), every root the whole stream (roots_offered), and prunes disabled subtrees entirely (disabled_pruned, "
